@@ -540,3 +540,26 @@ func VerifC16_q_twoPolicies() {
 	w.syncAll()
 	w.checkSemantics()
 }
+
+// BOUND: same cluster and flows; the node is synchronised for a policy of one of the 9 shapes of the convergence harness (quick: 5), then the policy is changed to another shape, deleted, or a second policy is added, delivered through the real UpdatePolicy / DeletePolicy / AddPolicy handlers; the verdicts of the rules installed afterwards are compared with the semantics of the policies in force afterwards (what an earlier policy left behind must not change a verdict)
+func VerifC16_q_afterPolicyChange() {
+	w := vSemWorld()
+	first := vShapeOf("np-a")
+	w.c.policies = []*networkv1.NetworkPolicy{first}
+	w.syncAll()
+	switch nondetChoice(3) {
+	case 0:
+		second := vShapeOf("np-a")
+		w.c.policies = []*networkv1.NetworkPolicy{second}
+		_ = w.pm.UpdatePolicy(first, second)
+	case 1:
+		w.c.policies = nil
+		_ = w.pm.DeletePolicy(first)
+	default:
+		second := vShapeOf("np-b")
+		w.c.policies = []*networkv1.NetworkPolicy{first, second}
+		_ = w.pm.AddPolicy(second)
+	}
+	verifReach("policy-changed")
+	w.checkSemantics()
+}
